@@ -20,7 +20,7 @@ import shutil
 import subprocess
 import tempfile
 
-from .. import runner
+from .. import runner, sanit
 from ..common import outcome, panic_sig
 from ..gen import prog
 from ..ref import jast
@@ -279,6 +279,27 @@ def interner_part(acc, tier, seed):
         acc.merge(a)
 
 
+INTERNER_HEAVY = [
+    "std.decodeUTF8(std.encodeUTF8('é😀')) + std.decodeUTF8(std.encodeUTF8(''))",
+    "local b = std.encodeUTF8('abc'); [b, b, std.decodeUTF8(b), std.length(b)]",
+    "std.base64(std.base64DecodeBytes('/w==')) + std.base64('/w==')",
+    "local s = 'k' + 'e' + 'y'; { [s]: s, ['ke' + 'y2']: s }[s] + std.join('', ['k', 'e', 'y'])",
+    "std.objectFields({ [std.toString(i)]: i for i in std.range(0, 40) })",
+    "[std.substr('héllo wörld', i, 3) for i in std.range(0, 10)] + std.split('a,b,,c', ',')",
+    "std.md5('x') + std.sha256(std.decodeUTF8([120])) + std.toString(std.encodeUTF8('x') == [120])",
+    "local f(x) = x + x; f(f(f('ab'))) + std.asciiUpper('ab') + std.strReplace('abab', 'b', 'é')",
+    "std.decodeUTF8([255, 254])",
+    "std.parseJson('{\"a\": [\"a\", \"b\", \"a\"], \"b\": \"a\"}')",
+    "std.manifestYamlDoc({ a: 'a', b: ['a', 'b'] }) + std.manifestToml({ a: 'a' })",
+    "{ ['f' + i]: 'f' + i for i in std.range(0, 20) } + { ['f' + i]+: '!' for i in std.range(5, 10) }",
+]
+
+
+def memory_jobs():
+    return [sanit.item(c, gc=True, max_stack=120, ext=[["v", "str", "ext-value"]]) for c in CYCLIC if not c.lstrip().startswith("function")] + \
+           [sanit.item(c, gc=True) for c in INTERNER_HEAVY]
+
+
 def run(tier, seed, t0):
     bins = runner.build("rel")
     accs = runner.shard_map(shard, (tier, seed, bins["jv-worker"]))
@@ -286,6 +307,12 @@ def run(tier, seed, t0):
     for a in accs:
         acc.merge(a)
     interner_part(acc, tier, seed)
+    # the evaluator's own use of the interner and of the collector under the memory monitors: LeakSanitizer /
+    # memcheck report memory that became unreachable without being freed (a lost reference count), ASan / Miri a
+    # use after free (a reference count dropped too early)
+    sanit.run_pass(acc, PROP, tier, seed, extra_items=memory_jobs(),
+                   quick={"asan": 240, "memcheck": 64, "miri": 24},
+                   thorough={"asan": 2400, "memcheck": 640, "miri": 256})
     return runner.finish(
         PROP, tier, seed, "exploration", acc, t0,
         rule="collector: %d hand-written cyclic structures (self / $ / super references, mutually recursive locals and functions, closures capturing their "
@@ -294,7 +321,9 @@ def run(tier, seed, t0):
              "cycles), each evaluated 3 times in fresh states with the tracked-object and pool gauges read after dropping everything and collecting; batches of "
              "25+ programs in one long-lived state, dropped, twice. interner: every history of <= 4 (quick) / 6 (thorough) operations over 8 contents "
              "(shared between str and bytes, valid and invalid UTF-8) and 4 handle slots + random histories of 80 operations with thread hand-over, against an "
-             "executable model with 5 invariants after every operation; optimised, debug-assertion and Miri builds. distinct_nontrivial = programs / batches / "
+             "executable model with 5 invariants after every operation; optimised, debug-assertion and Miri builds. memory monitors: the cyclic and interner-heavy "
+             "programs plus a sample of the workload replayed under AddressSanitizer + LeakSanitizer, valgrind memcheck (definite leaks) and Miri. "
+             "distinct_nontrivial = programs / batches / "
              "driver runs without growth or mismatch" % len(CYCLIC),
         assumptions=["objects still tracked after the first evaluation of a program are per-thread singletons (reachable, not garbage); a leak shows as growth on repetition",
                      "the gauges are jrsonnet_gcmodule::count_thread_tracked() and the verif-hooks pool accessor; no hook changes behaviour"],
